@@ -1,8 +1,8 @@
 package rules
 
 import (
-	"go/types"
 	"fmt"
+	"go/types"
 	"sort"
 	"strings"
 
@@ -390,8 +390,8 @@ func c09(c *core.Ctx, r *core.Report) {
 				okSites++
 				r.Hold("C09.E1", cons, pos, "exception: the iterator only forwards its callback's error and the callback passed here returns the nil constant on every path")
 			case u.Class == core.ErrSwallow && strings.HasSuffix(name, "strconv2.ParseAny") && withinRole(c, fn, func(g *ssa.Function) bool {
-			return core.TopLevel(g) == c.Func("container", "FuncNameAndResult")
-		}, 3):
+				return core.TopLevel(g) == c.Func("container", "FuncNameAndResult")
+			}, 3):
 				byClass["parse-or-literal"]++
 				okSites++
 				r.Hold("C09.E1", cons, pos, "exception: func-tag result matching falls back to comparing with the literal text when it does not parse")
